@@ -31,8 +31,8 @@ RULE = ('corpus first; exhaustive stream: every mapping of 1..k candidates into 
         'Fraction / Decimal with forced equal groups at the cut; each case run through core.get_n_best and '
         'Plurality().evaluate; quota-selector stream: QuotaSelector x 7 named quotas x accept_equal x select/error. Outputs compared after canonicalisation (runs of equal-valued winners sorted, ties as '
         'sorted sets). non-trivial = at least two candidates share a value or n >= number of candidates or a value '
-        'is non-integer/negative/beyond 2^53; distinct by hash of the canonical case; zero-seats stream: n = 0 on every mapping of '
-        '<= 3 candidates; order-exact stream (only while an obligation is broken): the same comparison without sorting equal-valued winners')
+        'is non-integer/negative/beyond 2^53; distinct by hash of the canonical case; only while an obligation is broken and these streams found nothing: order-exact stream (the same comparison '
+        'without sorting equal-valued winners) and zero-seats stream (n = 0 on every mapping of <= 3 candidates)')
 PARTIAL = []
 TRUSTED = []
 POOL = [Fraction(-1), Fraction(0), Fraction(1), Fraction(2), Fraction(1, 2)]
@@ -210,11 +210,6 @@ def explore(ctx, widen=1):
     k = 5 if dense else ctx.n(4, 5)
     if dense:
         widen = max(widen, 4)
-    ctx.differential('zero-seats', gen_zero(3), model_line, impl, canon, None)
-    if ctx.broken_items:
-        # an obligation (theorem / generated-code tie) no longer checks: also compare the ORDER of equal-valued winners, which the
-        # proved model fixes (stable sort) although the property text leaves it open
-        ctx.differential('order-exact', list(gen_exhaustive(3)) + list(gen_random(ctx.rng, 2000)), model_line, impl, canon_exact, nontrivial)
     ex = list(gen_exhaustive(k))
     ctx.differential('exhaustive', ex, model_line, impl, canon, nontrivial)
     ctx.notes.append('exhaustive stream complete for <=%d candidates over the value pool' % k)
@@ -222,6 +217,13 @@ def explore(ctx, widen=1):
                      model_line, impl, canon, nontrivial)
     ctx.differential('random', gen_random(ctx.rng, ctx.n(1500, 30000) * widen), model_line, impl, canon, nontrivial)
     ctx.differential('quota-selector', gen_qsel(ctx.rng, ctx.n(1500, 20000) * widen), qs_model_line, qs_impl, canon, nontrivial)
+    if ctx.broken_items and not ctx.violations:
+        # an obligation (theorem / generated-code tie) no longer checks and the streams above, which compare what the property text
+        # states, found nothing: look where the PROVED MODEL says more than the text - the order of equal-valued winners (the model's
+        # sort is stable) and n_seats = 0 (the tie lemma covers it; the property quantifies over n >= 1)
+        ctx.differential('order-exact', list(gen_exhaustive(3)) + list(gen_random(ctx.rng, 2000)), model_line, impl, canon_exact, nontrivial)
+        if not ctx.violations:
+            ctx.differential('zero-seats', gen_zero(3), model_line, impl, canon, None)
 
 
 def replay(ctx, case, stream=None):
